@@ -468,6 +468,13 @@ def quantity_edit(draw, spec, names=None, again=None):
     if mode == "factor":
         f = draw(st.sampled_from(FACTORS))
         val = [float("%.6g" % (cur[0] * f)), cur[1]]
+        if a in ("user_time_spent", "request_duration", "video_duration"):
+            # repeated x100 edits must not grow durations without bound: the library loops once per hour of duration,
+            # and a 20 000-hour step is neither realistic nor distinguishable from a hang within the watchdog
+            hours = val[0] * {"s": 1 / 3600.0, "second": 1 / 3600.0, "min": 1 / 60.0, "minute": 1 / 60.0,
+                              "hour": 1.0, "h": 1.0, "day": 24.0}.get(val[1], 1.0)
+            if hours > 48:
+                val = [48.0, "hour"]
         if a == "server_utilization_rate":
             val[0] = min(val[0], 1.0)
         if a == "data_replication_factor":
